@@ -156,6 +156,7 @@ def c_bo_read(eng, st, fr, f, args, site):
     eng.obligation(site["fr"], site["blk"], "ByteOrder", desc, ok, need="%s >= %d" % (vw["len"], w), st=st, reason="slice is long enough by guard facts")
     name = "rd[%s@%s:%d:%s]" % (vw["base"] if not isinstance(vw["base"], tuple) else "arr", vw["off"], w, order)
     eng.events.append(("read", vw["base"], vw["off"], w, order, name, site["fr"].path))
+    eng.rd_syms[name] = (vw["base"], vw["off"], w, order)
     if ii:
         return [(st, eng.named_int(name, ii[0], ii[1]))]
     return [(st, Flt(("sym", name), w * 8))]
